@@ -195,14 +195,20 @@ func c12Build(e *ref.EBP) (ebp.EncoderBoundaryPoint, []byte, func(g, r byte) []b
 		b.SetGroupingFlag(e.Flags&0x10 != 0)
 		b.SetTimeFlag(e.Flags&0x08 != 0)
 		b.SetExtensionFlag(e.Flags&0x01 != 0)
-		b.SetSap(e.Sap)
+		if e.Flags&0x20 != 0 {
+			// a value setter is only called for a field whose flag the caller wants: whether SetSap on its own also raises
+			// the flag (or is ignored) is not fixed by the statement
+			b.SetSap(e.Sap)
+		}
 	}
 	if e.CableLabs {
 		b := ebp.CreateCableLabsEbp()
 		set(&b)
 		b.SetConcealmentFlag(e.Flags&0x04 != 0)
 		b.ExtensionFlags = e.ExtFlags &^ 0x80
-		b.SetPartitionFlag(e.ExtFlags&0x80 != 0)
+		if e.Flags&0x01 != 0 {
+			b.SetPartitionFlag(e.ExtFlags&0x80 != 0) // same rule: only inside an extension the caller asked for
+		}
 		b.PartitionFlags = e.Partition
 		b.FormatIdentifier = e.FormatID
 		b.TimeSeconds, b.TimeFraction = e.Seconds, e.Fraction
